@@ -171,10 +171,25 @@ class ChangeScenario(Scenario):
     def build_registry(self, env: Env) -> kopf.OperatorRegistry:
         reg = kopf.OperatorRegistry()
         subs = self.params.get('subs', {})
+        shared: dict[str, dict[str, Any]] = {}      # group -> {handler id: its own scripted function}
+        dispatchers: dict[str, Any] = {}
         for h in self.params['handlers']:
             h = dict(h)
             hid, on = h.pop('id'), h.pop('on')
             script = parse_script(h.pop('script', ['ok']))
+            group = h.pop('shared', None)
+            if group is not None:
+                # ONE function object registered under several ids (e.g. @on.create + @on.update stacked): told apart by `param`
+                shared.setdefault(group, {})[hid] = scripted(env, hid, script)
+                if group not in dispatchers:
+                    def make(g: str) -> Any:
+                        async def dispatch(**kw: Any) -> Any:
+                            return await shared[g][kw['param']](**kw)
+                        dispatch.__name__ = dispatch.__qualname__ = f'shared_{g}'
+                        return dispatch
+                    dispatchers[group] = make(group)
+                getattr(kopf.on, on)(self.kind.plural, id=hid, registry=reg, param=hid, **h)(dispatchers[group])
+                continue
             if on == 'daemon' and h.get('body') == 'sync':
                 from kv.harness.op import daemon_sync_fn
                 h.pop('body')
